@@ -99,8 +99,8 @@ class NetworkXGraphStorageDisjoint:
             # check this graph_id isn't already present
             self.lock.acquire()
             try:
-                if graph_id in self.graphs.keys():
-                    # graph already present, warn and exit
+                if graph_id in self.graphs.keys() and len(self.graphs[graph_id].nodes) > 0:
+                    # graph already present (a deleted graph leaves an empty entry behind), warn and exit
                     if self.log is not None:
                         self.log.warn('Attempting to insert a graph with the same GraphID, skipping')
                     # the lock is released by the finally clause below
